@@ -493,3 +493,11 @@ def dryrun(pid, tier, replay):
         return engine.engine_replay(pid, replay)
     fams = _fams([dict(fam="dry", K=4, CH=4)], [dict(fam="dry", K=40, CH=12)], tier)
     return engine.engine_check(pid, fams, tier, maxruns=8 if tier == "quick" else 32, props=["C19"])
+
+
+@reg("C18")
+def clean(pid, tier, replay):
+    if replay:
+        return engine.engine_replay(pid, replay)
+    fams = _fams([dict(fam="clean", K=3, CH=6)], [dict(fam="clean", K=30, CH=40)], tier)
+    return engine.engine_check(pid, fams, tier, maxruns=2 if tier == "quick" else 4, props=["C18"])
